@@ -18,9 +18,20 @@ TReset == /\ Ev("Reset")
           /\ closed' = FALSE /\ started' = FALSE /\ role' = "none" /\ startMu' = "free"
           /\ lcred' = "c0" /\ rcred' = "" /\ gstate' = "new" /\ cyc' = <<>> /\ remotes' = {} /\ pendAdd' = {} /\ conn' = "New"
           /\ handler' = Tr[l].handler /\ restarts' = 0
+\* The driver logs a line "task" for every task the agent's loop runs (it holds the loop and lets it take one task at a time). The
+\* steps of the model that ARE loop tasks happen at such a line and nowhere else; a task line may also stand for a task the
+\* model does not describe (stutter). Steps that are no loop task - storing a handler, Close, the closed-loop pre-check of a
+\* start - stay silent and are placed by TLC.
+NoTask(p) == op[p].op \in {"OnCandidate", "Close", "AddRemoteCandidate"}       \* a store, the close of the loop, the spawn of the adder
+ErrRes == {"closed", "empty", "invalid", "multi", "nohandler"}                   \* refusals: argument checks, the start mutex, a closed loop
+TaskStep == (\E p \in Procs : Step(p) \/ Step2(p)) \/ Internal
+TTask == Ev("task") /\ (TaskStep \/ UNCHANGED vars)
+\* what may happen between two lines without the loop running a task: the steps that are no loop task, and refusals (they read
+\* or change nothing of the agent's state, or - "closed" - come from a loop that runs nothing any more)
 Silent == /\ UNCHANGED l /\ l <= Len(Tr) /\ Tr[l].ev # "Reset"
-          /\ ((\E p \in Procs : Step(p) \/ Step2(p)) \/ Internal)
-TNext == TInv \/ TRet \/ TReset \/ Silent
+          /\ \E p \in Procs : /\ (Step(p) \/ Step2(p))
+                              /\ NoTask(p) \/ (pc'[p] = "ret" /\ res'[p] \in ErrRes)
+TNext == TInv \/ TRet \/ TReset \/ TTask \/ Silent
 TSpec == TInit /\ [][TNext]_tv
 \* high-water mark of the consumed prefix (silent steps make the diameter useless); needs -workers 1
 HWM == IF l > TLCGet(1) THEN TLCSet(1, l) ELSE TRUE
